@@ -459,6 +459,7 @@ func (c *ctx) engineCase(a, b Schema, desc string, o engineOpts) {
 		return
 	}
 	add("I1 " + tokObs(after))
+	afterProj := stateProj(after) // before SchemaDiff: diff.Normalize rewrites the symbols of the inspected graph in place
 	if trace {
 		fmt.Fprint(os.Stderr, "  AFTER:\n"+readable(after))
 	}
@@ -468,6 +469,11 @@ func (c *ctx) engineCase(a, b Schema, desc string, o engineOpts) {
 	add("FK1 " + strconv.Itoa(fkv))
 	cs2, derr2, _ := diffReal(after, build("sqlite", b))
 	add("D2 " + showSchemaChanges(cs2, derr2))
+	if trace {
+		fmt.Fprintln(os.Stderr, "  APPLY ERR:", aerr, " D2:", showSchemaChanges(cs2, derr2))
+		fs := freshState(b)
+		fmt.Fprintln(os.Stderr, "  STATE DIFF:", firstDiff(afterProj, fs))
+	}
 	if o.updown {
 		// down: the reverse statements of the changes, last change first (what the formatters write into a down file)
 		switch {
@@ -543,7 +549,7 @@ func (c *ctx) engineCase(a, b Schema, desc string, o engineOpts) {
 		}
 		// independent of the differ: the state itself
 		if fs := freshState(b); fs != nil {
-			if df := firstDiff(stateProj(after), fs); df != "" {
+			if df := firstDiff(afterProj, fs); df != "" {
 				c.w.Violation(id, "state-differs", ic+fmt.Sprintf("apply succeeded and the second diff is empty, but the inspected database differs from the desired schema created from scratch: %s ; first diff=%s [%s]", df, showSchemaChanges(cs, nil), desc))
 			}
 		}
